@@ -27,7 +27,7 @@ pub fn def() -> CheckDef {
         runs: |t| if t.thorough() { 200_000 } else { 10_000 },
         run,
         execute,
-        expected_probes: &["link_to_sentinel_file", "link_to_sentinel_dir", "link_absolute", "link_dotdot", "dest_prepopulated_refused", "dest_absent", "overwrite_restore", "subtree_selection", "exclude_selection"],
+        expected_probes: &["dest_prepopulated_only_hidden_names", "link_to_sentinel_file", "link_to_sentinel_dir", "link_absolute", "link_dotdot", "dest_prepopulated_refused", "dest_absent", "overwrite_restore", "subtree_selection", "exclude_selection"],
     }
 }
 
@@ -221,10 +221,25 @@ fn execute(sc: &Scenario, acc: &mut Acc) -> Result<Vec<Violation>, String> {
             0 => acc.hit("dest_absent"),
             1 => std::fs::create_dir(&dest).map_err(|e| e.to_string())?,
             _ => {
+                // what is already there: ordinary names, only dot-names, a single entry, or a
+                // name that the version also holds (so that a wrongful restore would clobber it)
+                let flavour = r.below(4);
+                let clash = snap.iter().find(|(k, n)| n.kind == 'f' && k.matches('/').count() == 1).map(|(k, _)| k[1..].to_string());
+                let (file_name, link_name): (String, Option<&str>) = match flavour {
+                    0 => ("existing".into(), Some("existing-link")),
+                    1 => (".existing".into(), Some(".existing-link")),
+                    2 => (".profile".into(), None),
+                    _ => (clash.unwrap_or_else(|| "existing".into()), None),
+                };
+                if file_name.starts_with('.') {
+                    acc.hit("dest_prepopulated_only_hidden_names");
+                }
                 std::fs::create_dir(&dest).map_err(|e| e.to_string())?;
-                std::fs::write(dest.join("existing"), b"already here").map_err(|e| e.to_string())?;
-                std::os::unix::fs::symlink("../outside/f", dest.join("existing-link")).map_err(|e| e.to_string())?;
-                set_meta(&dest.join("existing"), 0o600, 0, 0, 1_555_555_555).map_err(|e| e.to_string())?;
+                std::fs::write(dest.join(&file_name), b"already here").map_err(|e| e.to_string())?;
+                if let Some(l) = link_name {
+                    std::os::unix::fs::symlink("../outside/f", dest.join(l)).map_err(|e| e.to_string())?;
+                }
+                set_meta(&dest.join(&file_name), 0o600, 0, 0, 1_555_555_555).map_err(|e| e.to_string())?;
             }
         }
         let overwrite = dest_state == 3;
